@@ -658,8 +658,8 @@ def len_raises(ws, hs, proj, params, graph, fn, ex):
     try:
         with orm.db_session:
             t = orm.select(len_qsrc(ws, hs, proj, fn)[len('select('):-1], query_globals(G, params))._translator
-            # known only for the recorded cause: a *numeric* value that mentions the count, tested for truth
-            if any(_has_inline_count(c) for c in t.conditions) and any(L.ty_of(e) in ('int', 'bool') for e in hs): key = 'aggregate-truth-test-lands-in-where'
+            # known only for the recorded cause: an *integer* value that mentions the count, tested for truth
+            if any(_has_inline_count(c) for c in t.conditions) and any(L.ty_of(e) == 'int' for e in hs): key = 'aggregate-truth-test-lands-in-where'
     except Exception:
         pass
     what = '%s with %s: the database rejects the statement (%s: %s); Python evaluates the comprehension' % (
